@@ -21,12 +21,10 @@ def check(ctx):
     av = F.fn("stream_definition::Stream::add_value")
     ap = Prov(av)
     chk = av.calls_to("Stream::check_stream_size_limit")
-    ok = len(chk) == 1 and all(av.dominates(chk[0].bb, r) for r in av.returns) and lib.err_propagates(av, chk[0])
-    ctx.require(ok, "R-MUST", "size:always-checked", "every return of add_value is dominated by check_stream_size_limit, whose result is returned",
-                "Stream::add_value can return without (or ignoring) check_stream_size_limit")
     adds = [c for c in av.calls if c.path.endswith(("add_value_to_generation", "add_to_last_generation"))]
-    ctx.require(len(adds) == 3 and chk and all(chk[0].bb in av.reach_after(c.bb) for c in adds), "R-MUST", "size:after-add", "the check runs after the value was added",
-                "Stream::add_value checks the size before adding")
+    ok = len(chk) == 1 and len(adds) == 3 and all(av.must_pass(c.target, [chk[0].bb]) for c in adds) and lib.err_propagates(av, chk[0])
+    ctx.require(ok, "R-MUST", "size:always-checked", "after each of the three add sites every path to return passes check_stream_size_limit, whose result is returned",
+                "Stream::add_value can return after adding a value without (or ignoring) check_stream_size_limit")
     c = F.const("stream_definition::STREAM_MAX_SIZE")
     ctx.require(c["val"] == "1024", "R-CONST", "size:const", "STREAM_MAX_SIZE == 1024", "STREAM_MAX_SIZE is %s" % c["val"])
     cl = F.fn("stream_definition::Stream::check_stream_size_limit")
